@@ -641,10 +641,22 @@ def select__index_of(self: XPathFunction, context: ta.ContextType = None) -> Ite
     else:
         collation = self.get_argument(context, 2, required=True, cls=str)
 
+    def is_equal(other: ta.AtomicType) -> bool:
+        # Untyped values are compared as strings, not comparable values are distinct
+        if isinstance(other, UntypedAtomic):
+            other = str(other)
+        try:
+            return manager.eq(other, value)
+        except (TypeError, ValueError):
+            return False
+
+    if isinstance(value, UntypedAtomic):
+        value = str(value)
+
     # Don't yield with the locale switched and the collation lock held
     with CollationManager(collation, self) as manager:
         positions = [pos for pos, result in enumerate(self[0].atomization(context), start=1)
-                     if manager.eq(result, value)]
+                     if is_equal(result)]
     yield from positions
 
 
